@@ -13,27 +13,9 @@ Structure of the result:
 * `C11_terminates`, `C11_only_members`, `C11_getitem_len_contains`, `C11_tombstone_*`;
 * `C11_spec_*`       the English clauses, proved on the abstract machine (pure list facts).
 -/
-import IrVerif.Lemmas.LinkedSetSim
-import IrVerif.Lemmas.LinkedSetSpec
-import IrVerif.Lemmas.LinkedSetFrozen
+import IrVerif.Lemmas.LinkedSetWF
+import IrVerif.Lemmas.LinkedSetRec
 namespace IrVerif.LinkedSet
-
-/-- The representation invariant: there is a list `bs` of live boxes such that `Inv s bs` — the
-live boxes form one prev/next cycle through the root, the dict maps exactly the stored values to
-their boxes, `_length` is their number, every box is owned by this list, and every erased box's
-stored pointers lead to the root, a live box or a box erased strictly later. -/
-def WF (s : LSet) : Prop := ∃ bs, Inv s bs
-
-/-- a cursor refers to an existing box (true of `notStarted`, `done` and of every cursor a
-`next()` returns) -/
-def Cursor.Valid (s : LSet) (c : Cursor) : Prop := c.pos < size s
-
-/-- abstraction to the list-with-gaps machine, using only executable functions of the model -/
-def abs (s : LSet) (d : Dir) (c : Cursor) : Spec.St := ⟨toList s, d, absCur s d c⟩
-
-theorem abs_eq {s : LSet} {bs : List Nat} (h : Inv s bs) (d : Dir) (c : Cursor) :
-    abs s d c = absSt s bs d c := by
-  simp only [abs, absSt, h.toList_eq, h.absCur_eq]
 
 /-! ### representation invariant -/
 
@@ -242,29 +224,6 @@ theorem C11_tombstone_order {s : LSet} (h : WF s) (b : Nat) (hb0 : b ≠ 0) (hb 
 
 /-! ### the English clauses -/
 
-theorem acur_inRange {s : LSet} {bs : List Nat} (h : Inv s bs) (d : Dir) (c : Cursor)
-    (hc : c.pos < size s) : (acur s bs d c).InRange (bs.map (vl s)) := by
-  by_cases hd : c = .done
-  · subst hd; rw [acur_done]; trivial
-  · obtain ⟨hn, hi⟩ := h.acur_index d hd hc
-    have hF : ∀ t, posF bs t ≤ bs.length := fun t => List.idxOf_le_length
-    have hR : ∀ t, IsNode bs t → posR bs t ≤ bs.length := by
-      intro t ht
-      unfold posR
-      rcases ht with rfl | ht
-      · simp
-      · have h0 : t ≠ 0 := by rintro rfl; exact h.zero_notin ht
-        have := List.idxOf_lt_length_of_mem ht
-        simp only [h0, if_false]; omega
-    cases d with
-    | fwd =>
-      simp only at hi
-      rcases hi with hi | hi <;> rw [hi] <;> simp only [Spec.ACur.InRange, List.length_map] <;> exact hF _
-    | rev =>
-      simp only at hi
-      rcases hi with hi | hi <;> rw [hi] <;> simp only [Spec.ACur.InRange, List.length_map] <;>
-        exact hR _ hn
-
 theorem abs_ok {s : LSet} (h : WF s) (d : Dir) (c : Cursor) (hc : c.Valid s) : (abs s d c).OK := by
   obtain ⟨bs, hi⟩ := h
   rw [abs_eq hi]
@@ -405,6 +364,87 @@ theorem C11_spec_resume (A B : List Nat) :
     Spec.rest (A ++ B) .rev (Spec.curRemove .rev A.length (.att A.length)) = A.reverse := by
   simp [Spec.curRemove, Spec.rest]
 
+/-! ### recursive iteration (`traversal.RecursiveGraphIterator`)
+
+`WorldWF w`: every node container satisfies `WF`.  `Ranked w d rk`: the nesting is well founded —
+`rk` decreases from a graph to every subgraph entered from one of its nodes ("a graph is not
+nested in itself").  `StackOK w d rk st`: every frame's cursor refers to a box of its graph and
+the subgraphs it still has to enter have smaller rank; it holds for a fresh iterator and is
+preserved by `next()` and by edits of the node sequences (attributes are not edited). -/
+
+/-- **C11_rec_start** -/
+theorem C11_rec_start {w : RWorld} (hw : WorldWF w) (d : Dir) (rk : Nat → Nat) (g : Nat) :
+    StackOK w d rk (recStart g) := by
+  intro fr hfr
+  simp only [recStart, List.mem_singleton] at hfr
+  subst hfr
+  exact frameOK_fresh w d rk g hw
+
+/-- **C11_rec_only_members**: every node a `next()` on the recursive iterator yields is, at that
+moment, a member of the graph it is yielded from (the graph whose generator produced it); the
+stack stays consistent. -/
+theorem C11_rec_only_members {w : RWorld} {d : Dir} {rk : Nat → Nat} (hw : WorldWF w)
+    (hr : Ranked w d rk) {st : List RFrame} (ok : StackOK w d rk st) (f : Nat) :
+    StackOK w d rk (recNext w d f st).1 ∧
+    ∀ g v, Out.yield g v ∈ (recNext w d f st).2.1 → v ∈ toList (w.setOf g) :=
+  recNext_ok hw hr f st ok
+
+/-- **C11_rec_terminates**: with no further edits and a well-founded nesting, the recursive
+iterator — in any consistent state, however its frames are parked — runs to StopIteration: the
+drain ends with `stop` for every sufficiently large step bound (never `raised`), with one fixed
+output stream, and every single `next()` returns a yield or StopIteration. -/
+theorem C11_rec_terminates {w : RWorld} {d : Dir} {rk : Nat → Nat} (hw : WorldWF w)
+    (hr : Ranked w d rk) {st : List RFrame} (ok : StackOK w d rk st) :
+    ∃ n outs, ∀ f, n ≤ f →
+      recDrain w d f st = (outs, .stop) ∧
+      ((recNext w d f st).2.2 = .stop ∨ ∃ v, (recNext w d f st).2.2 = .yield v) := by
+  obtain ⟨K, hK⟩ := exists_rank_bound rk st
+  obtain ⟨outs, hs⟩ := steps_stack hw hr K st ok hK
+  obtain ⟨n, hn⟩ := hs.drain_all
+  exact ⟨n, outs, fun f hf => ⟨hn f hf, recNext_of_drain w d f st outs (hn f hf)⟩⟩
+
+/-- **C11_rec_preorder**: with no edits, a fresh `RecursiveGraphIterator(g)` produces exactly the
+pre-order stream `specTop`: `enter g`, then each node of `g` in order (reverse order for
+`reverse=True`) immediately followed by the predicate call and, unless it returns False, by the
+complete visit of each of its subgraphs in attribute order (`GRAPHS` lists reversed for
+`reverse=True`), then `exit g`. -/
+theorem C11_rec_preorder {w : RWorld} {d : Dir} {rk : Nat → Nat} (hw : WorldWF w)
+    (hr : Ranked w d rk) (k g : Nat) (hk : rk g ≤ k) :
+    ∃ n, ∀ f, n ≤ f → recDrain w d f (recStart g) = (specTop w d k g, .stop) :=
+  (steps_top hw hr k g hk).drain_all
+
+/-- **C11_rec_refine_step**: an edit of the node sequence of graph `g` keeps the world and every
+iterator stack consistent, and every frame parked in `g` — at any depth of any recursive
+iterator — follows the list-with-gaps machine (`C11_refine_step` per level); frames of other
+graphs are untouched. -/
+theorem C11_rec_refine_step {w : RWorld} {d : Dir} {rk : Nat → Nat} (hw : WorldWF w)
+    {st : List RFrame} (ok : StackOK w d rk st) (g : Nat) (op : Op) (hg : g < w.sets.length) :
+    WorldWF (w.applyAt g op).1 ∧ StackOK (w.applyAt g op).1 d rk st ∧
+    ∀ fr ∈ st,
+      (fr.g = g → abs ((w.applyAt g op).1.setOf g) d fr.c = (Spec.apply (abs (w.setOf g) d fr.c) op).1) ∧
+      (fr.g ≠ g → (w.applyAt g op).1.setOf fr.g = w.setOf fr.g) := by
+  have hsame := setOf_applyAt_same w g op hg
+  refine ⟨?_, ?_, ?_⟩
+  · intro s hs
+    simp only [RWorld.applyAt] at hs
+    rcases List.mem_or_eq_of_mem_set hs with h | h
+    · exact hw s h
+    · rw [h]; exact C11_rep_step (hw.setOf g) op
+  · intro fr hfr
+    have okf := ok fr hfr
+    refine ⟨?_, okf.pend, okf.last⟩
+    by_cases hfg : fr.g = g
+    · rw [hfg, hsame]
+      have := (C11_refine_step (hw.setOf g) op d fr.c (by rw [← hfg]; exact okf.valid)).2.2
+      exact this
+    · rw [setOf_applyAt_other w g fr.g op hfg]; exact okf.valid
+  · intro fr hfr
+    have okf := ok fr hfr
+    refine ⟨?_, fun hne => setOf_applyAt_other w g fr.g op hne⟩
+    intro hfg
+    rw [hsame]
+    exact (C11_refine_step (hw.setOf g) op d fr.c (by rw [← hfg]; exact okf.valid)).1
+
 /-! ### non-vacuity of the hypotheses, and the corner the spec fixes -/
 
 -- `WF` is inhabited by every reachable state (C11_rep_history); concretely, with a tombstone:
@@ -430,5 +470,36 @@ example : ([1, 2] ++ 3 :: [4]).Nodup ∧ (Spec.ACur.gap 2).InRange ([1, 2] ++ 3 
   simp [Spec.ACur.InRange]
 example : Spec.seen .fwd 2 (.att 2) ∧ ¬ Spec.seen .fwd 2 (.gap 2) ∧ Spec.seen .rev 2 (.att 2) ∧ ¬ Spec.seen .rev 2 (.gap 2) := by
   simp [Spec.seen]
+
+-- recursive iteration: a world with a nested graph (graph 1 under node 1 of graph 0) satisfies the
+-- hypotheses, and the conclusion of C11_rec_preorder evaluated on it
+def exWorld : RWorld := ⟨[(extend empty [1, 2]).1, (extend empty [11]).1], [(1, [.graph 1])], none⟩
+
+example : WorldWF exWorld := by
+  intro s hs
+  simp only [exWorld, List.mem_cons, List.not_mem_nil, or_false] at hs
+  rcases hs with rfl | rfl <;> exact C11_rep_step C11_rep_empty.1 (.extend _)
+
+example : Ranked exWorld .fwd (fun g => 1 - g) := by
+  intro g v hv _ h hh
+  have hv1 : v = 1 := by
+    apply Classical.byContradiction
+    intro hne
+    have : (exWorld.attrs.lookup v) = none := by
+      simp only [exWorld, List.lookup]
+      have : (v == 1) = false := by simp [hne]
+      simp [this]
+    simp [RWorld.visit, RWorld.attrsOf, this] at hh
+  subst hv1
+  have hh1 : h = 1 := by simpa [RWorld.visit, RWorld.attrsOf, exWorld, List.lookup] using hh
+  subst hh1
+  match g, hv with
+  | 0, _ => decide
+  | 1, hv => exact absurd hv (by decide)
+  | g + 2, hv => exact absurd hv (by
+      have : exWorld.setOf (g + 2) = empty := by simp [RWorld.setOf, exWorld, List.getD]
+      rw [this]; decide)
+
+example : recDrain exWorld .fwd 100 (recStart 0) = (specTop exWorld .fwd 1 0, .stop) := by decide
 
 end IrVerif.LinkedSet
